@@ -101,9 +101,16 @@ def run_model(c: dict[str, Any], tr: list[Any], nm: list[Any]) -> Optional[str]:
     names = set(c["names"]) if c.get("names") else None
     got = observe(h, flt, names)
     want = expected(rows, assoc, flt, names)
-    if got != want:
+    if canon_out(got) != canon_out(want):
         return f"streamed {got} but the store holds {want}"
     return None
+
+
+def canon_out(out: Any) -> Any:
+    """the order in which names and traces are yielded is not part of the property; multiplicity is"""
+    if isinstance(out, str):
+        return out
+    return sorted((name, sorted(traces)) for name, traces in out)
 
 
 def run_real(c: dict[str, Any], tr: list[int], nm: list[int]) -> Optional[str]:
@@ -123,7 +130,7 @@ def run_real(c: dict[str, Any], tr: list[int], nm: list[int]) -> Optional[str]:
     got = observe(h, flt, names)
     want = expected(rows, assoc, flt, names)
     h.engine.dispose()
-    if got != want:
+    if canon_out(got) != canon_out(want):
         return f"streamed {got} but the store holds {want}"
     return None
 
